@@ -33,13 +33,16 @@ CellsJson(cs) == [k \in {Key(c) : c \in DOMAIN cs} |->
 
 Init == M!Init /\ hist = <<>>
 AddStep == \E c \in AddCells, i \in Pool :
-             /\ M!Add(c[1], c[2], i)
+             /\ M!Add(c[1], c[2], M!Eff(i))
              /\ hist' = Append(hist, [op |-> "add", v |-> c[1], a |-> c[2], img |-> i.n, out |-> out'])
-VerStep == \E ver \in {100, 101} :
+EditStep == \E i \in Pool, id \in {"I1", "I2"} :
+             /\ M!Edit(i.n, id)
+             /\ hist' = Append(hist, [op |-> "edit", img |-> i.n, ident |-> id, out |-> "ok"])
+VerStep == \E ver \in {100, 101, 200} :      \* 200 = "2.0": above 1.1 with minor number 0
              /\ M!SetVersion(ver)
              /\ hist' = Append(hist, [op |-> "setversion", ver |-> ver, out |-> "ok"])
 DumpStep == M!Dump /\ hist' = Append(hist, [op |-> "dump", out |-> "ok"])
-LoadStep == \E S \in (IF Mode = "merge" THEN MergeSets ELSE PairSets \cup SrcPairSets), ver \in {100, 101, 102} :
+LoadStep == \E S \in (IF Mode = "merge" THEN MergeSets ELSE PairSets \cup SrcPairSets), ver \in {100, 101, 102, 200} :
              /\ M!Load(DocOf(S), ver)
              /\ hist' = Append(hist, [op |-> "load", ver |-> ver, doc |-> CellsJson(DocOf(S)), out |-> out'])
 MergeStep == \E S \in MergeSets, ver \in {100, 101, 102} :
@@ -48,7 +51,7 @@ MergeStep == \E S \in MergeSets, ver \in {100, 101, 102} :
 Next == /\ Len(hist) < D
         /\ IF Mode \in {"loads", "merge"} /\ hist = <<>> THEN LoadStep
            ELSE IF Mode = "merge" THEN (out = "ok" /\ MergeStep)
-           ELSE (AddStep \/ VerStep \/ DumpStep)
+           ELSE (AddStep \/ VerStep \/ DumpStep \/ EditStep)
 
 Emit == PrintT("@@" \o ToJson([hist |-> hist, cells |-> CellsJson(cells), hdr |-> hdr, exempt |-> exempt]))
 EmitLast == Len(hist) < D \/ Emit          \* simulation mode: print full-depth behaviours only
